@@ -239,7 +239,7 @@ def evaluate(mod, cases, result, known, proof_problems):
             distinct.add(hashlib.sha1(canon(case).encode('utf-8')).digest()[:10])
         if len(samples) < 3 or (len(samples) < 8 and mod.nontrivial(case, io) and hist.total() % 97 == 0):
             samples.append({'case': case, 'impl': io, 'model': mo})
-        agree = canon(io) == canon(mo)
+        agree = canon(getattr(mod, 'compare_view', lambda x: x)(io)) == canon(mo)
         fails = mod.oracle(case, io, rep)
         if fails:
             failures.append((case, io, mo, fails))
@@ -339,7 +339,7 @@ def verdict(mod, tier, seed, cases, result, replay_mode=False):
                             return False
                         if mod.oracle(c, o, rep):
                             raise _FoundFailing(c)
-                        return canon(o) != canon(mod.model_out(c, rep))
+                        return canon(getattr(mod, 'compare_view', lambda x: x)(o)) != canon(mod.model_out(c, rep))
                     try:
                         small = shrink(mod, case, still_diff)
                         payload.update({'case': small, 'original_case': case, 'impl': mod.impl(small),
